@@ -256,9 +256,10 @@ def gen_istream(rng, B, big):
             elif r < 0.5:
                 ops.append("R%d" % sz)
             elif r < 0.6:
-                ops.append("S%d" % sz)
+                # sqfs_istream_skip takes a 64-bit count, splice a 32-bit one that is clamped to 0x7FFFFFFF
+                ops.append("S%d" % (sz if rng.random() < 0.9 else rng.choice([0x7FFFFFFF, 0x80000000, 0xFFFFFFFF, 1 << 40])))
             elif r < 0.75:
-                ops.append("P%d" % sz)
+                ops.append("P%d" % (sz if rng.random() < 0.9 else rng.choice([0x7FFFFFFF, 0x80000000, 0xFFFFFFFF])))
             elif r < 0.9:
                 ops.append("L%d" % rng.randint(0, 7))
             else:
@@ -705,8 +706,15 @@ def judge(sc):
     if not hard and sc.get("implfull") is not None and observable(kind, sc["impl"]) != observable(kind, sc["implfull"]):
         failures.append("result under short counts/EINTR differs from the implementation's own result when every call completes in full")
     if not hard and sc.get("specout") is not None and observable(kind, sc["impl"]) != sc["specout"]:
-        # ideal-stream specification (no OS at all) evaluated against what the implementation let the client observe
-        failures.append("client observations differ from the ideal-stream specification: spec=%s" % sc["specout"][:300])
+        if kind == "istream":
+            # ideal-stream specification (no OS, no buffer) evaluated against what the implementation let the client observe
+            failures.append("client observations differ from the ideal-stream specification: spec=%s" % sc["specout"][:300])
+        elif observable(kind, sc["model"]) != sc["specout"]:
+            # xistream / tarstrm: the "spec" line is the *model* of the adapter over the ideal stream, so it says nothing
+            # about the code beyond impl ≠ model (reported as a correspondence failure below); but the model under the
+            # script must equal it — that is the theorem
+            failures.append("the model under the script differs from the model over the ideal stream, which the theorems exclude "
+                            "(driver or check infrastructure broken): spec=%s" % sc["specout"][:300])
     if not hard and sc.get("linesout") is not None:
         # the byte-at-a-time scanner (Spec.nextLine: no stream, no buffer size) against the lines the implementation returned
         want = sc["linesout"].split(" ") if sc["linesout"] else []
@@ -849,7 +857,7 @@ def inprocess(ctx, hs, B, small, bx):
         scen.append(gen_istream(rng, B, True))
         scen.append(gen_istream(rng, B, True))
         scen.append(gen_tarstrm(rng, B, True))
-    jobs = 3 if quick else 6          # scenarios are independent; kept moderate (other checks run concurrently)
+    jobs = 3 if quick else 4          # scenarios are independent; kept moderate (other checks run concurrently)
     # group by harness binary
     groups = {}
     for sc in scen:
